@@ -433,4 +433,9 @@ def similarity_to_baseline(P, qualname, baseline_tokens):
     cur = function_tokens(f.node)
     if cur == base:
         return 1.0
-    return difflib.SequenceMatcher(None, base, cur, autojunk=False).ratio()
+    sm = difflib.SequenceMatcher(None, base, cur, autojunk=False)
+    ratio = sm.ratio()
+    if cur and sum(b.size for b in sm.get_matching_blocks()) >= 0.9 * len(cur):
+        # what is left is (almost) entirely the validated function's own code, in order: statements were deleted, nothing was rewritten
+        return max(ratio, 0.99)
+    return ratio
